@@ -125,6 +125,22 @@ class C02(Check):
                         x0 = kepler.propagate(xt, -k * step)
                         t = rng.choice(e["targets"])
                         t["state"]["position"], t["state"]["velocity"] = [float(v) for v in x0[:3]], [float(v) for v in x0[3:]]
+        # a further sensor joins through an event (its parameters travel through the event table, not the configuration objects)
+        if rng.random() < 0.25 and ncfg >= 2:
+            eng = rng.choice(cfg["engines"])
+            all_vis = eng["decision"]["name"] == "AllVisibleDecision"
+            kind = "adv_radar" if all_vis else rng.choice(["optical", "radar", "adv_radar"])
+            blk = gen.draw_sensor_block(rng, kind, coarse=rng.random() < 0.5, narrow_fov=False, slow_slew=rng.random() < 0.3)
+            ground = [s0 for s0 in eng["sensors"] if s0["platform"]["type"] == "ground_facility"]
+            if ground and rng.random() < 0.7:
+                b = rng.choice(ground)["state"]
+                agent = gen.ground_sensor(95001, max(-89.0, min(89.0, b["latitude"] + rng.uniform(-0.05, 0.05))), b["longitude"], b["altitude"], blk)
+            else:
+                orb = gen.draw_orbit(rng, rng.choice(["leo", "meo", "geo"]))
+                blk["elevation_range"] = [-89.9, 89.9]
+                agent = gen.space_sensor(95001, orb["pos"], orb["vel"], blk)
+            cfg.setdefault("events", []).append({"scope": "scenario_step", "scope_instance_id": 0, "event_type": "sensor_addition",
+                                                 "start_time": gen.fmt_ts(S + dt.timedelta(seconds=step * rng.randrange(1, ncfg))), "tasking_engine_id": eng["unique_id"], "sensor_agent": agent})
         # direct taskings issued by the harness after the run (it plays the tasking engine): any sensor to any target, whether or not it can see it
         direct = []
         if rng.random() < 0.6:
@@ -160,6 +176,10 @@ class C02(Check):
             from resonaate.physics.transforms.methods import eci2ecef
 
             max_meas = {}
+            # what each sensor was configured with, converted by the harness (degrees -> radians); sensors that joined through an event included
+            configured = {s0["id"]: s0["sensor"] for e in case["config"]["engines"] for s0 in e["sensors"]}
+            configured.update({ev["sensor_agent"]["id"]: ev["sensor_agent"]["sensor"] for ev in case["config"].get("events", []) if ev["event_type"] == "sensor_addition"})
+            fidelity_done = set()
             # rsim's own record of where each sensor points and when it last slewed: {sensor: (step, [(boresight, time), ...])}
             book = {}
             pending = {}
@@ -192,6 +212,16 @@ class C02(Check):
                     else:
                         cnt["slew_state_confirmed"] = cnt.get("slew_state_confirmed", 0) + 1
                 cnt["collect_calls"] = cnt.get("collect_calls", 0) + 1
+                if sen["id"] in configured and sen["id"] not in fidelity_done:
+                    fidelity_done.add(sen["id"])
+                    bad = self._fidelity(configured[sen["id"]], sen)
+                    cnt["sensors_compared_with_their_configuration"] = cnt.get("sensors_compared_with_their_configuration", 0) + 1
+                    if sen["id"] >= 95000:
+                        cnt["sensors_added_by_event_judged"] = cnt.get("sensors_added_by_event_judged", 0) + 1
+                    if bad:
+                        viol.append({"clause": "sensor-differs-from-its-configuration", "key": bad[0][0] + ("/added-by-event" if sen["id"] >= 95000 else ""),
+                                     "detail": f"sensor {sen['id']} ({sen['kind']}) works with {', '.join(f'{n} = {got!r} (configured {want!r})' for n, got, want in bad[:4])}"})
+                        continue
                 cnt[f"calls_{sen['kind']}_{'space' if sen['space'] else 'ground'}"] = cnt.get(f"calls_{sen['kind']}_{'space' if sen['space'] else 'ground'}", 0) + 1
                 targets = {r["primary"]["id"]: r["primary"]}
                 for b in r["background"]:
@@ -291,6 +321,33 @@ class C02(Check):
         finally:
             cleanup(ctx)
         return res
+
+    @staticmethod
+    def _fidelity(conf, sen):
+        """Parameters of the live sensor vs. its configuration (the harness converts degrees to radians itself)."""
+        rad = math.radians
+        want = {"az_mask": [rad(v) for v in conf["azimuth_range"]], "el_mask": [rad(v) for v in conf["elevation_range"]], "slew_rate": rad(conf["slew_rate"]),
+                "diameter": conf["aperture_diameter"], "efficiency": conf["efficiency"]}
+        fov = conf.get("field_of_view")
+        if fov is not None:
+            want["fov"] = ({"shape": "conic", "cone": rad(fov["cone_angle"])} if fov["fov_shape"] == "conic"
+                           else {"shape": "rect", "az": rad(fov["azimuth_angle"]), "el": rad(fov["elevation_angle"])})
+        for k_conf, k_obj in (("minimum_range", "min_range"), ("maximum_range", "max_range"), ("tx_power", "tx_power"), ("tx_frequency", "tx_frequency"),
+                              ("min_detectable_power", "min_power"), ("detectable_vismag", "vismag")):
+            if conf.get(k_conf) is not None:
+                want[k_obj] = conf[k_conf]
+        bad = []
+        for name, w in want.items():
+            got = sen.get(name)
+            if isinstance(w, dict):
+                same = isinstance(got, dict) and got.get("shape") == w["shape"] and all(abs(got.get(q, float("nan")) - w[q]) <= 1e-12 * max(1.0, abs(w[q])) for q in w if q != "shape")
+            elif isinstance(w, list):
+                same = got is not None and len(got) == len(w) and all(abs(a - b) <= 1e-12 * max(1.0, abs(b)) for a, b in zip(got, w))
+            else:
+                same = got is not None and abs(float(got) - float(w)) <= 1e-12 * max(1.0, abs(float(w)))
+            if not same:
+                bad.append((name, got, w))
+        return bad
 
     @staticmethod
     def _direct_phase(app, direct):
